@@ -49,6 +49,11 @@ static void* edn_arena_alloc_slow(edn_arena_t* arena, size_t size) {
     /* Use adaptive block size - either the next planned size or the requested size (whichever is larger) */
     size_t block_size = (size > arena->next_block_size) ? size : arena->next_block_size;
 
+    /* The block header is added to the request: that sum must not wrap either */
+    if (block_size > SIZE_MAX - sizeof(arena_block_t)) {
+        return NULL;
+    }
+
     arena_block_t* new_block = malloc(sizeof(arena_block_t) + block_size);
     if (!new_block) {
         return NULL;
@@ -83,11 +88,15 @@ void* edn_arena_alloc(edn_arena_t* arena, size_t size) {
         return NULL;
     }
 
+    /* Rounding up must not wrap around (a request near SIZE_MAX cannot be met) */
+    if (size > SIZE_MAX - 7) {
+        return NULL;
+    }
     size = (size + 7) & ~7;
 
     arena_block_t* block = arena->current;
 
-    if (block->used + size <= block->capacity) {
+    if (size <= block->capacity - block->used) { /* used <= capacity; the sum could wrap */
         void* ptr = block->data + block->used;
         block->used += size;
         return ptr;
